@@ -437,14 +437,13 @@ func runC16(c *Ctx) {
 		return true, false
 	})
 	for _, fn := range []*ssa.Function{get, remove, removeSame, tryRemove, gc, doLocked} {
-		var sinks []ssa.Instruction
-		Instrs(fn, func(in ssa.Instruction) {
+		// (accesses moved into a function new since the anchor snapshot are decided there)
+		sinks := InstrSinksX(fn, func(in ssa.Instruction) bool {
 			if isDataLookup(in) {
-				sinks = append(sinks, in)
+				return true
 			}
-			if rg, ok := in.(*ssa.Range); ok && IsLoadOfField(rg.X, dataF) {
-				sinks = append(sinks, in)
-			}
+			rg, ok := in.(*ssa.Range)
+			return ok && IsLoadOfField(rg.X, dataF)
 		})
 		c.RequireGate("C16.6-closed-gate", fn, closedGate, sinks, "access to oCache.data")
 	}
